@@ -17,7 +17,8 @@ BUDGET = {"quick": 300, "thorough": 1800}
 HANG_IS_VIOLATION = True
 EXHAUSTIVE = True
 RULE = ("EXHAUSTIVE: every r x c grid with r*c <= 4 (quick) / <= 5 (thorough; "
-        "relation checks up to 6 cells) x 10 codes per cell (8 directions, 0, one "
+        "relation checks on all 6-cell grids, delineation with every outlet and inlet "
+        "sets of size <= 1 on a third of the 2x3 / 3x2 grids) x 10 codes per cell (8 directions, 0, one "
         "invalid code) x every outlet x every inlet set of size 0..2 x every river "
         "start; RANDOM: grids up to 14x14 built as random descending forests "
         "(acyclic, large catchments, long diagonal chains), random-code grids "
@@ -338,9 +339,31 @@ def run(ctx):
                 codes = np.array(combo, dtype=np.int64).reshape((nr, nc))
                 run_grid(ctx, codes, {"kind": "grid", "codes": codes.tolist(),
                                       "relations_only": True}, full=False)
+        # delineation on one in three of the 2x3 / 3x2 grids: every outlet, inlet
+        # sets of size 0 and 1 (sampled, not claimed exhaustive)
+        for (nr, nc) in [(2, 3), (3, 2)]:
+            for gi, combo in enumerate(itertools.product(CODES, repeat=6)):
+                idx += 1
+                if idx % ctx.nshards != ctx.shard or gi % 3 != (nr % 3):
+                    continue
+                if ctx.out_of_time():
+                    break
+                codes = np.array(combo, dtype=np.int64).reshape((nr, nc))
+                model = FlowGraph(codes.tolist())
+                cat, fd = make_catch(codes)
+                cyc = model.has_cycle()
+                ctx.evaluated()
+                base = {"kind": "grid", "codes": codes.tolist()}
+                for o in range(6):
+                    for inl in [()] + [(a,) for a in range(6) if a != o]:
+                        case = dict(base, outlet=o, inlets=list(inl))
+                        ctx.evaluated()
+                        ref = check_area(ctx, cat, model, o, list(inl), case, cyc=cyc)
+                        if ref is not None and len(ref) >= 2:
+                            ctx.nontrivial(codes, o, inl)
     # ------------------------------------------------------------ random part ----
     rng = ctx.rng(2)
-    nrand = 12 if ctx.tier == "quick" else 120
+    nrand = 12 if ctx.tier == "quick" else 600
     for it in range(nrand):
         if ctx.out_of_time():
             break
